@@ -69,12 +69,14 @@ def build_harness():
 
 
 UNINSTRUMENTED = set()
+LAST_CVH = {"rc": 0}
 
 
 def cvh(args, timeout=600, check=True):
     """Run a harness subcommand; returns (summary dict, raw output)."""
     build_harness()
     rc, out = sh([CVH] + [str(a) for a in args], timeout=timeout, check=False)
+    LAST_CVH["rc"] = rc
     summ = None
     for l in out.splitlines():
         if l.startswith("SUMMARY "):
